@@ -57,7 +57,8 @@ def check(repo: Repo, run: Run) -> None:
     kev = repo.function("kevent", "from_kd_buf")
     want_event = interp.run(repo.module("kevent"), kev, {kev.args.args[0].arg: raw}).return_term()
     yields = [r for r in rec.returns if r.kind in ("yield", "yield_from")]
-    ev_yields = [y for y in yields if sym.canon(y.value) == sym.canon(want_event)]
+    opaque = T("call", (T("func", ("pykdebugparser.kevent.from_kd_buf",)), (raw,), ()))
+    ev_yields = [y for y in yields if sym.canon(y.value) == sym.canon(want_event) or y.value == opaque]
     other_yields = [y for y in yields if y not in ev_yields]
 
     # ------------------------------------------------------------------ R1
@@ -113,6 +114,27 @@ def check(repo: Repo, run: Run) -> None:
            "the chunk loop is not left exactly when read(8) differs from TRACEV3_MORE_EVENTS: later chunks are skipped or the "
            "loop runs past the last chunk", facts={"exits": [(e[0], [sym.pretty(c)[:60] for c, _ in e[1]]) for e in outer.exits]},
            line=outer.lineno)
+
+    # ------------------------------------------------------------------ R7 the tag scanner is an exact sliding window
+    su = repo.function("kd_buf_parser", "seek_until")
+    srec = interp.run(mod, su)
+    rd, tag = param(su.args.args[0].arg), param(su.args.args[1].arg)
+    wl = [lr for lr in srec.loops.values() if lr.kind == "while"]
+    recognised = False
+    if len(wl) == 1 and wl[0].test is not None:
+        tst = wl[0].test
+        atom, pol = render.norm_bool(tst)
+        if atom.op == "cmp" and atom.a[0] == "==" and not pol and tag in (atom.a[1], atom.a[2]):
+            W = atom.a[1] if atom.a[2] == tag else atom.a[2]
+            init = T("call", (T("attr", (rd, "read")), (T("call", (T("builtin", ("len",)), (tag,), ())),), ()))
+            if W.op == "widen" and W.a[2] and W.a[2][0] == init:
+                # initial window = read(len(tag)); the update inside the loop must be window[1:] + read(1)
+                recognised = _window_update_ok(su, W.a[0])
+    if not recognised:
+        raise AnalysisError("seek_until is not the recognised exact scanner (window = read(len(tag)); while window != tag: "
+                            "window = window[1:] + read(1)): whether every tag is found cannot be decided for another algorithm")
+    run.ob("R7", MOD, "seek_until", "tags are located by an exact sliding-window scan", True,
+           facts={"form": "window = read(len(tag)); while window != tag: window = window[1:] + read(1)"})
 
     # ------------------------------------------------------------------ R2 ordering
     log_call = T("attr", (T("class", ("pykdebugparser.os_log_event.OsLogEvent",)), "from_raw_log_event"))
@@ -266,6 +288,33 @@ def check(repo: Repo, run: Run) -> None:
         run.ob("R6", MOD, "KdBufParser.parse_v3", "extension only when the record names a process and a thread", okg and bool(stores),
                "the thread/process tables are extended without both `process` and `thread_identifier` being present",
                line=ly.lineno)
+
+
+def _window_update_ok(fn: ast.FunctionDef, var: str) -> bool:
+    """Inside the while loop the window variable is updated exactly as  var = var[1:] + <one byte read from the stream>."""
+    reader = fn.args.args[0].arg
+    loops = [n for n in ast.walk(fn) if isinstance(n, ast.While)]
+    if len(loops) != 1:
+        return False
+    assigns = [n for n in ast.walk(loops[0]) if isinstance(n, (ast.Assign, ast.AugAssign))
+               and any(isinstance(t, ast.Name) and t.id == var for t in (n.targets if isinstance(n, ast.Assign) else [n.target]))]
+    if len(assigns) != 1 or not isinstance(assigns[0], ast.Assign):
+        return False
+    v = assigns[0].value
+    if not (isinstance(v, ast.BinOp) and isinstance(v.op, ast.Add)):
+        return False
+    left, right = v.left, v.right
+    ok_left = isinstance(left, ast.Subscript) and isinstance(left.value, ast.Name) and left.value.id == var \
+        and isinstance(left.slice, ast.Slice) and left.slice.upper is None and left.slice.step is None \
+        and isinstance(left.slice.lower, ast.Constant) and left.slice.lower.value == 1
+    one_byte = f"{reader}.read(1)"
+    if isinstance(right, ast.Name):
+        src = [n for n in ast.walk(loops[0]) if isinstance(n, ast.Assign) and any(isinstance(t, ast.Name) and t.id == right.id
+                                                                                     for t in n.targets)]
+        ok_right = len(src) == 1 and ast.unparse(src[0].value) == one_byte
+    else:
+        ok_right = ast.unparse(right) == one_byte
+    return ok_left and ok_right
 
 
 def _state_name(path: T) -> Optional[str]:
